@@ -546,6 +546,259 @@ Definition expected (c : case) : list (option (list sval)) :=
       (c_values c).
 Definition lhs_of (c : case) : str := if c_field c then fname else kwname.
 
+
+(* ---------------------------------------------------------------------------------------- *)
+(* one value-list / wildcard transformation step of the model = the specification's step,
+   on the items of the values *)
+Lemma items_cons p v : items (p :: v) = part_items p ++ items v.
+Proof. reflexivity. Qed.
+
+Lemma items_merge v : items (merge v) = items v.
+Proof.
+  induction v as [|p v IH]; [reflexivity|].
+  destruct p; cbn [merge]; try (rewrite !items_cons, IH; reflexivity).
+  rewrite (items_cons (PStr s) v), <- IH.
+  destruct (merge v) as [|q r]; [reflexivity|].
+  destruct q; try reflexivity.
+  rewrite !items_cons. cbn [part_items]. rewrite map_app, <- app_assoc. reflexivity.
+Qed.
+
+Lemma isubst_lits h s l ch : isubst h (map Lit s ++ l) ch = map Lit s ++ isubst h l ch.
+Proof. induction s as [|c s IH]; [reflexivity|]. cbn [map app isubst]. rewrite IH. reflexivity. Qed.
+
+Lemma isubst_nil h l : isubst h l [] = l.
+Proof.
+  induction l as [|i l IH]; [reflexivity|].
+  destruct i; cbn [isubst]; try (rewrite IH; reflexivity).
+  destruct (h name); rewrite IH; reflexivity.
+Qed.
+
+Lemma s_handled_eq t n : item_ok t = true -> s_handled (to_sitem t) n = handled t n.
+Proof.
+  unfold item_ok, s_handled, handled, to_sitem. cbn [s_inc s_exc].
+  destruct (t_inc t), (t_exc t); intros H; try discriminate;
+    rewrite ?orb_false_r; reflexivity.
+Qed.
+
+(* the variable table, model and specification view *)
+Lemma vl_lookup_spec vs n :
+  match vl_lookup vs n with
+  | Ok reps => exists x l, tabs_of vs n = STable (x :: l) /\ reps = map (parse true) (x :: l)
+  | SigmaErr _ => match tabs_of vs n with STable (_ :: _) => False | _ => True end
+  | Crash _ => False
+  end.
+Proof.
+  unfold vl_lookup, tabs_of. destruct (assoc n vs) as [tab|]; [|exact I].
+  set (l := match tab with TScalar x => [x] | TList l => l end). clearbody l.
+  destruct l as [|x0 l0]; [exact I|].
+  destruct (forallb _ (x0 :: l0)) eqn:F; [|exact I].
+  assert (G : forall L, forallb (fun x => match x with VText _ => true | VBad => false end) L = true ->
+              flat_map (fun x => match x with VText t => [parse true t] | VBad => [] end) L =
+              map (parse true) (flat_map (fun x => match x with VText t => [t] | VBad => [] end) L)).
+  { induction L as [|y L IHL]; intros HL; [reflexivity|]. cbn [forallb] in HL.
+    apply andb_true_iff in HL. destruct HL as [Hy HL]. destruct y; [|discriminate].
+    cbn [flat_map app map]. rewrite (IHL HL). reflexivity. }
+  rewrite (G _ F). destruct x0 as [t0|]; [|discriminate].
+  cbn [flat_map app]. eexists. eexists. split; reflexivity.
+Qed.
+
+Definition rep_items (rx : bool) : list item := if rx then [Lit c_dot; Multi] else [Multi].
+
+Lemma base_cb_spec vs t rx n : item_ok t = true -> base_kind t -> handled t n = true ->
+  match base_cb vs t rx n with
+  | Ok reps => reps <> [] /\ s_repl (tabs_of vs) (to_sitem t) rx n = Some (map items reps)
+  | SigmaErr _ => s_repl (tabs_of vs) (to_sitem t) rx n = None
+  | Crash _ => False
+  end.
+Proof.
+  intros Hok Hk Hh. unfold base_cb, s_repl. rewrite Hh. unfold to_sitem. cbn [s_kind].
+  destruct Hk as [Hk|Hk]; rewrite Hk.
+  - pose proof (vl_lookup_spec vs n) as L. destruct (vl_lookup vs n) as [reps|e|e].
+    + destruct L as [x [l [Ht ->]]]. rewrite Ht. split; [discriminate|].
+      f_equal. rewrite map_map. apply map_ext. intros a. symmetry. apply parse_items.
+    + destruct (tabs_of vs n) as [|[|x l]]; try reflexivity. destruct L.
+    + exact L.
+  - split; [discriminate|]. destruct rx; reflexivity.
+Qed.
+
+Lemma all_some_cons {A} (a : option A) l :
+  all_some (a :: l) = match a, all_some l with Some x, Some r => Some (x :: r) | _, _ => None end.
+Proof. destruct a; [|reflexivity]. cbn [all_some]. destruct (all_some l); reflexivity. Qed.
+
+Lemma rp_spec vs t rx v : item_ok t = true -> base_kind t -> forall pre,
+  match rp (base_cb vs t rx) pre v with
+  | Ok l => exists tables,
+              all_some (map (s_repl (tabs_of vs) (to_sitem t) rx) (filter (handled t) (placeholders v))) = Some tables /\
+              map items l = map (fun ch => items pre ++ isubst (handled t) (items v) ch) (cartesian tables)
+  | SigmaErr _ => all_some (map (s_repl (tabs_of vs) (to_sitem t) rx) (filter (handled t) (placeholders v))) = None
+  | Crash _ => False
+  end.
+Proof.
+  intros Hok Hk. induction v as [|p v IH]; intros pre.
+  - cbn [rp]. exists []. split; [reflexivity|]. simpl. rewrite app_nil_r. reflexivity.
+  - destruct p.
+    + cbn [rp]. specialize (IH (pre ++ [PStr s])). rewrite (placeholders_cons (PStr s) v). cbn [placeholders flat_map app].
+      destruct (rp (base_cb vs t rx) (pre ++ [PStr s]) v) as [l|e|e]; try exact IH.
+      destruct IH as [tables [E1 E2]]. exists tables. split; [exact E1|]. rewrite E2.
+      apply map_ext. intros ch. rewrite items_app, items_cons. cbn [part_items items flat_map].
+      rewrite app_nil_r, isubst_lits, <- app_assoc. reflexivity.
+    + cbn [rp]. specialize (IH (pre ++ [PMulti])). rewrite (placeholders_cons PMulti v). cbn [placeholders flat_map app].
+      destruct (rp (base_cb vs t rx) (pre ++ [PMulti]) v) as [l|e|e]; try exact IH.
+      destruct IH as [tables [E1 E2]]. exists tables. split; [exact E1|]. rewrite E2.
+      apply map_ext. intros ch. rewrite items_app, items_cons. cbn [part_items items flat_map isubst app].
+      rewrite <- app_assoc. reflexivity.
+    + cbn [rp]. specialize (IH (pre ++ [PSingle])). rewrite (placeholders_cons PSingle v). cbn [placeholders flat_map app].
+      destruct (rp (base_cb vs t rx) (pre ++ [PSingle]) v) as [l|e|e]; try exact IH.
+      destruct IH as [tables [E1 E2]]. exists tables. split; [exact E1|]. rewrite E2.
+      apply map_ext. intros ch. rewrite items_app, items_cons. cbn [part_items items flat_map isubst app].
+      rewrite <- app_assoc. reflexivity.
+    + cbn [rp]. rewrite (placeholders_cons (PPh name) v). cbn [placeholders flat_map app filter].
+      change (flat_map (fun p => match p with PPh n => [n] | _ => [] end) v) with (placeholders v).
+      rewrite items_cons. cbn [part_items app].
+      destruct (handled t name) eqn:Hh.
+      * cbn [map]. rewrite all_some_cons.
+        pose proof (base_cb_spec vs t rx name Hok Hk Hh) as B.
+        destruct (base_cb vs t rx name) as [reps|e|e]; cbn [obind].
+        -- destruct B as [Hne B]. rewrite B.
+           destruct reps as [|r0 R]; [contradiction|].
+           specialize (IH []). destruct (rp (base_cb vs t rx) [] v) as [sufs|e|e]; cbn [obind].
+           ++ destruct IH as [tables [E1 E2]]. rewrite E1. eexists. split; [reflexivity|].
+              cbn [cartesian]. rewrite map_cart_cons.
+              unfold cross. generalize (r0 :: R). intros RR.
+              induction RR as [|r RR IHR]; [reflexivity|].
+              cbn [flat_map map]. rewrite map_app, IHR. f_equal.
+              rewrite map_map.
+              transitivity (map (fun x => items pre ++ items r ++ x) (map items sufs)).
+              ** rewrite map_map. apply map_ext. intros sf. unfold sadd.
+                 rewrite items_merge, items_app, items_merge, items_app, <- app_assoc. reflexivity.
+              ** rewrite E2, map_map. apply map_ext. intros ch. cbn [isubst]. rewrite Hh. reflexivity.
+           ++ rewrite IH. reflexivity.
+           ++ exact IH.
+        -- rewrite B. reflexivity.
+        -- exact B.
+      * unfold base_cb at 1. rewrite Hh. cbn [obind].
+        specialize (IH []). destruct (rp (base_cb vs t rx) [] v) as [sufs|e|e]; cbn [obind]; try exact IH.
+        destruct IH as [tables [E1 E2]]. exists tables. split; [exact E1|].
+        unfold cross. cbn [flat_map]. rewrite app_nil_r, map_map.
+        transitivity (map (fun x => items pre ++ Ph name :: x) (map items sufs)).
+        -- rewrite map_map. apply map_ext. intros sf. unfold sadd.
+           rewrite items_merge, items_app, items_merge, items_app, <- app_assoc. reflexivity.
+        -- rewrite E2, map_map. apply map_ext. intros ch. cbn [isubst]. rewrite Hh. reflexivity.
+Qed.
+
+Lemma to_plain_items v : to_plain false v = plain_items (items v).
+Proof.
+  induction v as [|p v IH]; [reflexivity|].
+  rewrite to_plain_cons, items_cons. unfold plain_items in *. rewrite flat_map_app, <- IH. f_equal.
+  destruct p; cbn [part_plain part_items flat_map item_plain]; rewrite ?app_nil_r; try reflexivity.
+  unfold plain_escape. induction s as [|c s IHs]; [reflexivity|].
+  cbn [flat_map map item_plain]. rewrite IHs. reflexivity.
+Qed.
+
+Lemma isubst_ext h h' l : (forall n, h n = h' n) -> forall ch, isubst h l ch = isubst h' l ch.
+Proof.
+  intros E. induction l as [|i l IH]; intros ch; [reflexivity|].
+  destruct i; cbn [isubst]; rewrite ?IH; try reflexivity.
+  rewrite <- E. destruct (h name); [destruct ch|]; rewrite ?IH; reflexivity.
+Qed.
+
+Lemma filter_ext' {A} (p q : A -> bool) l : (forall x, p x = q x) -> filter p l = filter q l.
+Proof. intros E. induction l as [|x l IH]; [reflexivity|]. simpl. rewrite E, IH. reflexivity. Qed.
+
+Lemma s_expand_handled vs t rx l : item_ok t = true ->
+  s_expand (tabs_of vs) (to_sitem t) rx l =
+  match all_some (map (s_repl (tabs_of vs) (to_sitem t) rx) (filter (handled t) (ph_of l))) with
+  | Some tables => Some (map (isubst (handled t) l) (cartesian tables))
+  | None => None
+  end.
+Proof.
+  intros Hok. unfold s_expand.
+  rewrite (filter_ext' (s_handled (to_sitem t)) (handled t) _ (fun n => s_handled_eq t n Hok)).
+  destruct (all_some _); [|reflexivity]. f_equal. apply map_ext. intros ch.
+  apply isubst_ext. intros n. apply s_handled_eq. exact Hok.
+Qed.
+
+Lemma filter_none {A} (p : A -> bool) l : (forall x, In x l -> p x = false) -> filter p l = [].
+Proof.
+  induction l as [|x l IH]; intros H; [reflexivity|]. simpl.
+  rewrite (H x (or_introl eq_refl)). apply IH. intros y Hy. apply H. right. exact Hy.
+Qed.
+
+Lemma contains_ph_handled t v : item_ok t = true ->
+  contains_ph (t_inc t) (t_exc t) v = false -> filter (handled t) (placeholders v) = [].
+Proof.
+  intros Hok H. apply filter_none. intros n Hn.
+  rewrite (handled_cond t n Hok). unfold contains_ph in H.
+  destruct (_ && _) eqn:E; [|reflexivity].
+  exfalso. assert (X : existsb (fun n => match t_inc t with None => true | Some l => mem_str n l end
+                    && match t_exc t with None => true | Some l => negb (mem_str n l) end)
+          (placeholders v) = true) by (apply existsb_exists; exists n; split; assumption).
+  rewrite X in H. discriminate.
+Qed.
+
+(* specification view of a string or regular-expression value *)
+Definition sv (x : value) : sval :=
+  match x with VS v => XS (items v) | VR v => XR (items v) | VQ e i => XQ (e ++ i) end.
+Definition has_parts (x : value) : Prop := match x with VQ _ _ => False | _ => True end.
+
+Theorem base_step_spec vs t x : item_ok t = true -> base_kind t -> has_parts x ->
+  match x with VR v => compile_ok v = true | _ => True end ->
+  match apply_value vs t x with
+  | Ok rs => s_step (tabs_of vs) (to_sitem t) (sv x) = Some (map sv rs)
+  | SigmaErr _ => s_step (tabs_of vs) (to_sitem t) (sv x) = None
+  | Crash _ => False
+  end.
+Proof.
+  intros Hok Hk Hp Hc.
+  assert (Hs : forall y, s_step (tabs_of vs) (to_sitem t) y =
+               match y with
+               | XS l => option_map (map XS) (s_expand (tabs_of vs) (to_sitem t) false l)
+               | XR l => match s_expand (tabs_of vs) (to_sitem t) true l with
+                         | Some rs => if forallb s_rx_valid rs then Some (map XR rs) else None
+                         | None => None end
+               | XQ _ => Some [y] end).
+  { intros y. unfold s_step, to_sitem. cbn [s_kind]. destruct Hk as [K|K]; rewrite K; reflexivity. }
+  assert (Hav : apply_value vs t x =
+           match x with
+           | VS v => if contains_ph (t_inc t) (t_exc t) v
+                     then obind (replace_placeholders (base_cb vs t false) v) (fun l => Ok (map VS l))
+                     else Ok [x]
+           | VR v => if contains_ph (t_inc t) (t_exc t) v
+                     then obind (replace_placeholders (base_cb vs t true) v)
+                            (fun l => if forallb compile_ok l then Ok (map VR l) else SigmaErr E_Regex)
+                     else Ok [x]
+           | VQ _ _ => Ok [x] end).
+  { unfold apply_value. destruct Hk as [K|K]; rewrite K; reflexivity. }
+  rewrite Hav, Hs. clear Hav Hs.
+  destruct x as [v|v|e i]; [| |destruct Hp]; cbn [sv]; rewrite (s_expand_handled vs t _ _ Hok), ph_of_items.
+  - destruct (contains_ph (t_inc t) (t_exc t) v) eqn:Ec.
+    + unfold replace_placeholders. pose proof (rp_spec vs t false v Hok Hk []) as R.
+      destruct (rp (base_cb vs t false) [] v) as [l|e|e]; cbn [obind].
+      * destruct R as [tables [E1 E2]]. rewrite E1. cbn [option_map]. f_equal.
+        rewrite !map_map. rewrite <- (map_map items XS), E2, map_map. reflexivity.
+      * rewrite R. reflexivity.
+      * exact R.
+    + rewrite (contains_ph_handled t v Hok Ec). cbn [map all_some cartesian option_map].
+      rewrite isubst_nil. reflexivity.
+  - destruct (contains_ph (t_inc t) (t_exc t) v) eqn:Ec.
+    + unfold replace_placeholders. pose proof (rp_spec vs t true v Hok Hk []) as R.
+      destruct (rp (base_cb vs t true) [] v) as [l|e|e]; cbn [obind].
+      * destruct R as [tables [E1 E2]]. rewrite E1.
+        change (fun ch => items [] ++ isubst (handled t) (items v) ch) with (isubst (handled t) (items v)) in E2.
+        rewrite <- E2.
+        assert (F : forallb s_rx_valid (map items l) = forallb compile_ok l).
+        { clear. induction l as [|r l IH]; [reflexivity|]. cbn [map forallb]. rewrite IH. f_equal.
+          unfold s_rx_valid, compile_ok. rewrite to_plain_items. reflexivity. }
+        rewrite F. destruct (forallb compile_ok l); [|reflexivity].
+        f_equal. rewrite !map_map. reflexivity.
+      * rewrite R. reflexivity.
+      * exact R.
+    + rewrite (contains_ph_handled t v Hok Ec). cbn [map all_some cartesian].
+      rewrite isubst_nil. cbn [forallb].
+      (* an untouched regular expression is not recompiled by the model: its validity is the premise *)
+      unfold s_rx_valid. rewrite <- to_plain_items. unfold compile_ok in Hc. rewrite Hc. reflexivity.
+Qed.
+
 (* finding C17-F1: under `all` the replacements of one value are AND-linked *)
 Definition witness_all : case :=
   {| c_field := true; c_re := false; c_all := true; c_mods := [MContains; MExpand];
